@@ -859,8 +859,10 @@ def ref_from_gauss(mu, cov, n, q, cutoff):
             rm, rc = red([k])
             v = rc / (hb / 2)
             tr = np.trace(v)
-            den = np.sqrt(max((tr - 2) * (tr + 2), 1e-300))
-            out.append([np.arccosh(max(tr / 2, 1.0)) / 2, 0.0 if v[0, 1] == 0 else float(np.clip(-2 * v[0, 1] / den, -1, 1))])
+            # after fix dc8c3db the angle is the orientation of the noise ellipse: phi = arctan2(-2 V_xp, V_pp - V_xx) (for a pure
+            # mode this equals the former arcsin formula on |phi| <= pi/2; for a mixed reduced mode the arcsin formula was off)
+            ph = 0.0 if np.allclose(v, np.eye(2), atol=1e-12, rtol=0) else float(np.arctan2(-2 * v[0, 1], v[1, 1] - v[0, 0]))
+            out.append([np.arccosh(max(tr / 2, 1.0)) / 2, float(np.sin(ph))])
         return np.array(out)
     if m == "squeezing_truth":
         rm, rc = red([q["mode"]])
